@@ -48,3 +48,75 @@ Proof.
   split; [exact c_band_dtw_distance|]. split; [exact c_band_dtw_distance_ndim|].
   split; [exact c_band_dtw_distance_euclidean|exact c_band_dtw_distance_ndim_euclidean].
 Qed.
+
+(* THE C KERNELS AS WRITTEN.  Gen_cdist.v holds the four dtw_distance* functions of dd_dtw.c translated WHOLE by
+   tools/cfun.py (decoding of the settings struct, two-row buffer with i0/i1, row loop, cell update, PrunedDTW
+   bookkeeping, psi scans, final comparison with the bound; one definition per function and per loop body).  For every
+   input they return the specification value (the minimum over admissible warping paths, DtwSpec.dtw_value) cut at the
+   bound in use, in the kernel's internal representation (RSqrt v: the C code returns sqrt(v)); the second component
+   says that every array access was in range.  Proof: CDistTie.v (regenerated text = canonical kernel), CDistProofs.v
+   (canonical kernel = as-written model of dtw.distance, a simulation of the two-row buffer), PyDistPrune.v (= spec).
+   Oracle parameters: ce / ced / cub are the values of the C functions the kernel calls (dtw_distance_euclidean,
+   euclidean_distance_squared, ub_euclidean); ced only enters as the bound when use_pruning is set. *)
+From Coq Require Import Bool.
+Import ListNotations.
+From DV Require Import Bounds Prune DtwProps CLang CDistSpec.
+From DVGen Require Import Gen_cdist.
+
+Theorem C02_c_dtw_distance_as_written :
+  forall (window p m mld : Z) (p1b p1e p2b p2e : nat) (junk : Z -> cost), (0 <= window)%Z -> (0 <= p)%Z ->
+  forall (f1 f2 : list Z) (ce ced cub : cost) (idist : Z) (md : cost) (prune : bool),
+  (1 <= length f1)%nat -> (1 <= length f2)%nat -> (p1b < length f1 \/ p2e < length f2)%nat -> (idist =? 1)%Z = false ->
+  c_dtw_distance ce ced cub junk f1 (Z.of_nat (length f1)) f2 (Z.of_nat (length f2)) idist md mld (Fin m) false (Fin p)
+                 (Z.of_nat p1b) (Z.of_nat p1e) (Z.of_nat p2b) (Z.of_nat p2e) prune window =
+  ((if too_long (c_to_u (cs_of window p m mld (psi4 p1b p1e p2b p2e) SqEuclid)) (scal f1) (scal f2) then RPlain Inf
+    else RSqrt (bounded (c_bound_sq prune ced md)
+                  (dtw_value (c_to_u (cs_of window p m mld (psi4 p1b p1e p2b p2e) SqEuclid)) (scal f1) (scal f2)))), true).
+Proof. exact c_dtw_distance_spec. Qed.
+
+Theorem C02_c_dtw_distance_euclidean_as_written :
+  forall (window p m mld : Z) (p1b p1e p2b p2e : nat) (junk : Z -> cost), (0 <= window)%Z -> (0 <= p)%Z ->
+  forall (f1 f2 : list Z) (cub md : cost) (prune : bool),
+  (1 <= length f1)%nat -> (1 <= length f2)%nat -> (p1b < length f1 \/ p2e < length f2)%nat ->
+  c_dtw_distance_euclidean cub junk f1 (Z.of_nat (length f1)) f2 (Z.of_nat (length f2)) md mld (Fin m) false (Fin p)
+                 (Z.of_nat p1b) (Z.of_nat p1e) (Z.of_nat p2b) (Z.of_nat p2e) prune window =
+  ((if too_long (c_to_u (cs_of window p m mld (psi4 p1b p1e p2b p2e) AbsDiff)) (scal f1) (scal f2) then RPlain Inf
+    else RPlain (bounded (c_bound_eu prune cub md)
+                  (dtw_value (c_to_u (cs_of window p m mld (psi4 p1b p1e p2b p2e) AbsDiff)) (scal f1) (scal f2)))), true).
+Proof. exact c_dtw_distance_euclidean_spec. Qed.
+
+(* n-dimensional kernels: the series are lists of d-dimensional points stored point after point (concat) *)
+Theorem C02_c_dtw_distance_ndim_as_written :
+  forall (window p m mld : Z) (p1b p1e p2b p2e : nat) (junk : Z -> cost), (0 <= window)%Z -> (0 <= p)%Z ->
+  forall (s1 s2 : list point) (d : nat),
+  (forall q, In q s1 -> length q = d) -> (forall q, In q s2 -> length q = d) ->
+  (1 <= length s1)%nat -> (1 <= length s2)%nat -> (p1b < length s1 \/ p2e < length s2)%nat ->
+  forall (ce ced cub : cost) (idist : Z) (md : cost) (prune : bool), (idist =? 1)%Z = false ->
+  c_dtw_distance_ndim ce ced cub junk (concat s1) (Z.of_nat (length s1)) (concat s2) (Z.of_nat (length s2)) (Z.of_nat d)
+                 idist md mld (Fin m) false (Fin p) (Z.of_nat p1b) (Z.of_nat p1e) (Z.of_nat p2b) (Z.of_nat p2e) prune window =
+  ((if too_long (c_to_u (cs_of window p m mld (psi4 p1b p1e p2b p2e) SqEuclid)) s1 s2 then RPlain Inf
+    else RSqrt (bounded (c_bound_sq prune ced md)
+                  (dtw_value (c_to_u (cs_of window p m mld (psi4 p1b p1e p2b p2e) SqEuclid)) s1 s2))), true).
+Proof. exact c_dtw_distance_ndim_spec. Qed.
+
+Theorem C02_c_dtw_distance_ndim_euclidean_as_written :
+  forall (window p m mld : Z) (p1b p1e p2b p2e : nat) (junk : Z -> cost), (0 <= window)%Z -> (0 <= p)%Z ->
+  forall (s1 s2 : list point) (d : nat),
+  (forall q, In q s1 -> length q = d) -> (forall q, In q s2 -> length q = d) ->
+  (1 <= length s1)%nat -> (1 <= length s2)%nat -> (p1b < length s1 \/ p2e < length s2)%nat ->
+  forall (cub md : cost) (prune : bool),
+  c_dtw_distance_ndim_euclidean cub junk (concat s1) (Z.of_nat (length s1)) (concat s2) (Z.of_nat (length s2)) (Z.of_nat d)
+                 md mld (Fin m) false (Fin p) (Z.of_nat p1b) (Z.of_nat p1e) (Z.of_nat p2b) (Z.of_nat p2e) prune window =
+  ((if too_long (c_to_u (cs_of window p m mld (psi4 p1b p1e p2b p2e) AbsDiff)) s1 s2 then RPlain Inf
+    else RPlain (bounded (c_bound_eu prune cub md)
+                  (dtw_value (c_to_u (cs_of window p m mld (psi4 p1b p1e p2b p2e) AbsDiff)) s1 s2))), true).
+Proof. exact c_dtw_distance_ndim_euclidean_spec. Qed.
+
+(* the hypotheses are satisfiable and the regenerated kernel computes: [0;0;5;0;1] vs [0;5;0;0;3], window 2,
+   psi_1e = 1: squared value 4, returned as sqrt; with max_dist = 1 (bound 1 < 4): inf *)
+Example C02_c_kernel_nonvacuous :
+  c_dtw_distance Inf Inf Inf (fun _ => Fin 7) [0; 0; 5; 0; 1]%Z 5 [0; 5; 0; 0; 3]%Z 5 0 (Fin 0) 0 (Fin 0) false (Fin 0) 0 1 0 0 false 2
+    = (RSqrt (Fin 4), true) /\
+  c_dtw_distance Inf Inf Inf (fun _ => Fin 7) [0; 0; 5; 0; 1]%Z 5 [0; 5; 0; 0; 3]%Z 5 0 (Fin 1) 0 (Fin 0) false (Fin 0) 0 1 0 0 false 2
+    = (RSqrt Inf, true).
+Proof. vm_compute. split; reflexivity. Qed.
